@@ -172,7 +172,7 @@ class Leg:
 
     def __init__(self, config, mon, shards=(1, 4), scale=None, tiers=("quick", "thorough"), args=None, env=None,
                  timeout=(300, 1800), label=None, fn=None, crash_is_violation=False, digest_group=None,
-                 seed_offset=0):
+                 seed_offset=0, require=None):
         self.config = config
         self.mon = mon
         self.shards = shards  # (quick, thorough)
@@ -186,6 +186,7 @@ class Leg:
         self.crash_is_violation = crash_is_violation
         self.digest_group = digest_group
         self.seed_offset = seed_offset
+        self.require = require or {}
 
 
 def _scale_for(config):
@@ -463,6 +464,8 @@ def finish(check, tier, seed, results, t0):
             key = k
             merged["counters"][key] = merged["counters"].get(key, 0) + v
         for k, m in rep.get("required", []):
+            merged["required"][(leg.label, k)] = (m, merged["required"].get((leg.label, k), (m, 0))[1] + rep.get("counters", {}).get(k, 0))
+        for k, m in leg.require.items():
             merged["required"][(leg.label, k)] = (m, merged["required"].get((leg.label, k), (m, 0))[1] + rep.get("counters", {}).get(k, 0))
         if rep.get("rule") and rep["rule"] not in merged["rules"]:
             merged["rules"].append(rep["rule"])
